@@ -315,4 +315,36 @@ theorem verdict_table :
     verdict .term .ok = (false, .ok) ∧ verdict .term .inc = (false, .inc) ∧ verdict .term .term = (false, .term) := by
   decide
 
+/-! ## Audit addition: "still a possible v2 header" is the parser's flag, not extensibility -/
+
+/-- The signature followed by a zero byte (version nibble 0). -/
+def stuck : B := [0x0D, 0x0A, 0x0D, 0x0A, 0x00, 0x0D, 0x0A, 0x51, 0x55, 0x49, 0x54, 0x0A, 0x00]
+
+/-- **A documented example, so that "possible v2 header" is not read literally.** In
+`possible_v2_never_v1`, `incomplete_iff`, … "still a possible v2 header" means "the binary parser
+reports incomplete", which is what the crate's dispatcher tests. It does not mean that some
+continuation is accepted: the 13 bytes `signature ++ [0x00]` are `Incomplete(13)` (the fixed part
+is examined only once all 16 bytes are there) and auto-detection tags them V2, yet no
+continuation is ever accepted — any continuation to 16 bytes or more is the terminal
+`Version(0)`. -/
+theorem v2_incomplete_not_always_extensible :
+    ∃ (x : B) (e : V2.ParseError), V2.parse x = .error e ∧ e.isIncomplete = true ∧
+      parse x = .v2 (.error e) ∧
+      (∀ t h, V2.parse (x ++ t) ≠ .ok h) ∧
+      (∀ t, 3 ≤ t.length → V2.parse (x ++ t) = .error (.version 0)) := by
+  refine ⟨stuck, .incomplete 13, by decide, rfl, by decide, ?_, ?_⟩
+  · intro t h hp
+    obtain ⟨-, -, c, -, -, h1, -⟩ := (C02.accept_iff_table _ _).mp hp
+    rw [V2.byteAt_append_of_lt t (by decide)] at h1
+    cases c <;> exact absurd h1 (by decide)
+  · intro t ht
+    have hg : V2.gate (stuck ++ t) = .ok () := by
+      rw [V2.gate_ok_iff]
+      refine ⟨?_, by simp only [List.length_append, stuck, List.length_cons, List.length_nil]; omega⟩
+      rw [List.take_append_of_le_length (by decide)]; decide
+    have hb : byteAt (stuck ++ t) 12 = 0 := V2.byteAt_append_of_lt t (by decide)
+    have := V2.blame_version (stuck ++ t) hg (by rw [hb]; decide)
+    rw [hb] at this
+    exact this
+
 end C06
